@@ -45,4 +45,3 @@ Proof.
            cli_font cli_maxlen src p HP body HB mp tl name glob optimize w code HN HW HE (ProgramClosed.graph_size body w HW)).
 Qed.
 End C.
-Print Assumptions compiled_scripts_correct_final.
